@@ -11,6 +11,44 @@ LEVEL = ("Variant-correspondence level only: From<serde_json::Value> (owned and 
 VARS = ["Null", "Bool", "Number", "String", "Array", "Object"]
 
 
+def serialize_table(ctx, F):
+    """Serialize for JValue (the canonical bytes behind CIDs, raw values, call arguments): per-variant serializer table.
+    Numbers are delegated to serde_json::Number::serialize and to nothing else — any hand-rolled i64/f64 split loses the
+    u64 range above i64::MAX."""
+    ser = [f for f in F.impl_fns("ser::Serialize", "JValue", "serialize") if F.impl_of(f)["self"].endswith("::JValue")]
+    if ctx.require(len(ser) == 1, "R-TABLE", "ser:anchor", "Serialize for JValue found", "Serialize for JValue not found (%d)" % len(ser)):
+        f = ser[0]
+        rows = {}
+        # serializer calls made by closures of this impl (an entry loop written as `iter().try_for_each(|..| map.serialize_entry(..))`)
+        # count for the path that constructs the closure
+        clos = {c_.id: {x.path.split("::")[-1] for x in c_.calls if x.path.split("::")[-1].startswith(("serialize", "collect_seq", "collect_map", "end"))} for c_ in F.closures_of(f)}
+        for st in lib.enumerate_paths(f, max_paths=60000, max_visits=2):
+            src = [v for k, v in st.variants.items() if k[0] == 1 and v in VARS]
+            ms = {c.path.split("::")[-1] for c in st.calls if c.path.split("::")[-1].startswith(("serialize", "collect_seq", "collect_map", "end"))}
+            for bb in st.blocks:
+                for s_ in f.blocks[bb]["stmts"]:
+                    if "lhs" in s_ and s_["rv"]["k"] == "agg" and s_["rv"].get("kind") == "closure" and s_["rv"]["cid"] in clos:
+                        ms |= clos[s_["rv"]["cid"]]
+            meths = tuple(sorted(ms))
+            if src:
+                rows.setdefault(src[0], set()).add(meths)
+        def any_has(v, name):
+            return any(name in m for m in rows.get(v, set()))
+        ok = any_has("Null", "serialize_unit") and any_has("Bool", "serialize_bool") and any_has("Number", "serialize") and any_has("String", "serialize_str") and \
+            (any_has("Array", "serialize") or any_has("Array", "collect_seq")) and any_has("Object", "serialize_map") and any_has("Object", "serialize_entry")
+        cross = any_has("Bool", "serialize_str") or any_has("String", "serialize_bool") or any_has("Null", "serialize_bool") or any_has("Number", "serialize_str")
+        ctx.require(ok and not cross, "R-TABLE", "ser:table", "Null->unit, Bool->bool, Number->Number::serialize, String->str, Array->seq, Object->map(entries)", "Serialize for JValue table is %s" % {k: sorted(v) for k, v in rows.items()},
+                    sample={"table": {k: sorted(map(list, v)) for k, v in rows.items()}})
+        num = rows.get("Number", set())
+        ctx.require(num == {("serialize",)}, "R-TABLE", "ser:number-delegated", "Number -> serde_json::Number::serialize only (covers i64, u64 and f64 alike)",
+                    "Serialize for JValue emits numbers through %s instead of delegating to Number::serialize: integers above i64::MAX (u64 range) are no longer written as integers, "
+                    "so printed JSON, canonical bytes (CIDs) and encoded call arguments change for them" % sorted(num), sample={"number_paths": sorted(map(list, num))})
+        # every entry of an object is emitted: serialize_entry sits in a loop over the map iterator with no boolean guard
+        se = [c for _, c, _ in lib.family_calls(F, f, lambda c: c.path.endswith("serialize_entry"))]
+        ctx.require(len(se) == 1,
+                    "R-TABLE", "ser:all-entries", "every object entry is serialised (unconditional serialize_entry in the map loop)", "object entries are serialised conditionally")
+
+
 def check(ctx):
     F = ctx.facts("prod")
     ctx.clause("R-TABLE From<serde_json::Value> / From<&serde_json::Value>: same-named variants")
@@ -45,34 +83,7 @@ def check(ctx):
         ok = all(rows.get(v) in ({v}, {v, None}) for v in VARS)
         ctx.require(ok, "R-TABLE", "from-serde:" + tag, "From<%sserde_json::Value>: each variant maps to the same-named JValue variant" % ("&" if tag == "ref" else ""),
                     "From<serde_json::Value> (%s) table is %s" % (tag, {k: sorted(map(str, v)) for k, v in rows.items()}), sample={"table": {k: sorted(map(str, v)) for k, v in rows.items()}})
-    ser = [f for f in F.impl_fns("ser::Serialize", "JValue", "serialize") if F.impl_of(f)["self"].endswith("::JValue")]
-    if ctx.require(len(ser) == 1, "R-TABLE", "ser:anchor", "Serialize for JValue found", "Serialize for JValue not found (%d)" % len(ser)):
-        f = ser[0]
-        rows = {}
-        # serializer calls made by closures of this impl (an entry loop written as `iter().try_for_each(|..| map.serialize_entry(..))`)
-        # count for the path that constructs the closure
-        clos = {c_.id: {x.path.split("::")[-1] for x in c_.calls if x.path.split("::")[-1].startswith(("serialize", "collect_seq", "collect_map", "end"))} for c_ in F.closures_of(f)}
-        for st in lib.enumerate_paths(f, max_paths=60000, max_visits=2):
-            src = [v for k, v in st.variants.items() if k[0] == 1 and v in VARS]
-            ms = {c.path.split("::")[-1] for c in st.calls if c.path.split("::")[-1].startswith(("serialize", "collect_seq", "collect_map", "end"))}
-            for bb in st.blocks:
-                for s_ in f.blocks[bb]["stmts"]:
-                    if "lhs" in s_ and s_["rv"]["k"] == "agg" and s_["rv"].get("kind") == "closure" and s_["rv"]["cid"] in clos:
-                        ms |= clos[s_["rv"]["cid"]]
-            meths = tuple(sorted(ms))
-            if src:
-                rows.setdefault(src[0], set()).add(meths)
-        def any_has(v, name):
-            return any(name in m for m in rows.get(v, set()))
-        ok = any_has("Null", "serialize_unit") and any_has("Bool", "serialize_bool") and any_has("Number", "serialize") and any_has("String", "serialize_str") and \
-            (any_has("Array", "serialize") or any_has("Array", "collect_seq")) and any_has("Object", "serialize_map") and any_has("Object", "serialize_entry")
-        cross = any_has("Bool", "serialize_str") or any_has("String", "serialize_bool") or any_has("Null", "serialize_bool") or any_has("Number", "serialize_str")
-        ctx.require(ok and not cross, "R-TABLE", "ser:table", "Null->unit, Bool->bool, Number->Number::serialize, String->str, Array->seq, Object->map(entries)", "Serialize for JValue table is %s" % {k: sorted(v) for k, v in rows.items()},
-                    sample={"table": {k: sorted(map(list, v)) for k, v in rows.items()}})
-        # every entry of an object is emitted: serialize_entry sits in a loop over the map iterator with no boolean guard
-        se = [c for _, c, _ in lib.family_calls(F, f, lambda c: c.path.endswith("serialize_entry"))]
-        ctx.require(len(se) == 1,
-                    "R-TABLE", "ser:all-entries", "every object entry is serialised (unconditional serialize_entry in the map loop)", "object entries are serialised conditionally")
+    serialize_table(ctx, F)
     vis = {}
     for f in F.fns.values():
         if f.crate == "air_interpreter_value" and "::de::" in f.path and "ValueVisitor" in f.path and "::visit_" in f.path and "{closure" not in f.path:
